@@ -58,6 +58,10 @@ Discovery(id, recs, tail, tailname) ==
                     exp |-> [prop |-> "C16", outcome |-> IF ok THEN "value" ELSE "error",
                              value |-> IF ok THEN CS!ExpandAll(recs) ELSE <<>>,
                              reqs |-> [i \in 1..n |-> CipherReq(i - 1)]]] >>]
+\* two discoveries on one connection: the second must start again at list index 0
+DiscoveryTwice(id, recs) ==
+  LET one == Discovery(id, recs, <<>>, "none") IN
+  [one EXCEPT !.steps = one.steps \o << one.steps[2] >>, !.info = [one.info EXCEPT !.family = "discovery-twice"]]
 Tails == << <<"trailing", <<7, 1, 1>>>>, <<"trunc1", <<192>>>>, <<"trunc2", <<192, 5>>>>, <<"oemtrunc", <<193, 128, 1, 2, 3>>>>,
             <<"oemtrunc1", <<193>>>>, <<"oemtrunc4", <<193, 128, 1, 2>>>>, <<"badauth", <<192, 9, 200>>>>, <<"badauth2", <<193, 130, 1, 2, 3, 70>>>> >>
 DiscoverySet ==
@@ -67,7 +71,9 @@ DiscoverySet ==
                \cup { Discovery("x1-" \o ToString(m), Rep(Pair16, m) \o <<Std(3, 1, <<1>>, <<1>>)>>, <<>>, "none") : m \in 1..4 }
       bad == { Discovery("b-" \o ToString(n) \o "-" \o Tails[t][1], ListOf(n * 50 + t, n), Tails[t][2], Tails[t][1]) : n \in {0, 1, 2, 3, 5, 7}, t \in 1..Len(Tails) }
              \cup { Discovery("bx-" \o ToString(m) \o "-" \o Tails[t][1], Rep(Pair16, m), Tails[t][2], Tails[t][1]) : m \in 1..2, t \in 1..Len(Tails) }
-  IN good \cup exact \cup bad
+      twice == { DiscoveryTwice("t-" \o ToString(n), ListOf(n * 50 + 9, n)) : n \in {0, 2, 4, 6, 9, 13} }
+               \cup { DiscoveryTwice("tx-" \o ToString(m), Rep(Pair16, m)) : m \in 1..3 }
+  IN good \cup exact \cup bad \cup twice
 
 \* --------------------------------------------------------------------- C12
 SelU == << <<3, 4, 1>>, <<1, 1, 1>>, <<2, 2, 1>>, <<1, 2, 1>>, <<3, 1, 1>> >>
@@ -96,10 +102,17 @@ Selection(id, prefs, adv) ==
                     exp |-> [prop |-> "C12", outcome |-> "errclass",
                              errclass |-> IF r.kind = "propose" THEN "other" ELSE "ErrNoSupportedCipherSuite",
                              reqs |-> disc \o osr]] >>]
+SelectionTwice(id, prefs1, adv1, prefs2, adv2) ==
+  LET a == Selection(id, prefs1, adv1)  b == Selection(id, prefs2, adv2) IN
+  [a EXCEPT !.steps = a.steps \o b.steps, !.info = [a.info EXCEPT !.family = "selection-twice"]]
 SelectionSet ==
   LET U == {SelU[i] : i \in 1..Len(SelU)}
       prefs == IF Tier = "thorough" THEN PrefLists ELSE {p \in PrefLists : Len(p) <= 2} \cup {p \in PrefLists : Len(p) = 3 /\ (p[1][1] + p[2][2] + p[3][1] + Seed) % 5 = 0}
-  IN { Selection("s-" \o ToString(p) \o "-" \o ToString(a), p, a) : p \in prefs, a \in SUBSET U }
+      \* histories: an establishment against a BMC lacking the first preference, then one against a BMC that has it,
+      \* with the default list, with the same explicit list, over few and many advertised records
+      pairs == { SelectionTwice("st-" \o ToString(p) \o "-" \o ToString(a1) \o "-" \o ToString(a2), p, a1, p, a2)
+                   : p \in {<<>>, <<SelU[1], SelU[2]>>, <<SelU[3], SelU[1], SelU[2]>>}, a1 \in {{SelU[2]}, {SelU[2], SelU[4]}, U}, a2 \in {U, {SelU[1], SelU[2]}} }
+  IN { Selection("s-" \o ToString(p) \o "-" \o ToString(a), p, a) : p \in prefs, a \in SUBSET U } \cup pairs
 
 Scripts == CASE Family = "discovery" -> DiscoverySet [] Family = "selection" -> SelectionSet
 Header == [header |-> TRUE, family |-> Family]
